@@ -170,7 +170,7 @@ def main(rep, ws, tier):
                 continue
             lv = T.leaves(J, 100000)
             nsing = 0; ninv = 0; bad = None; badg = None; ncases = 0; und = None; badp = None; npiv = 0
-            div_sets = {}
+            div_sets = {}; det_leaves = set()
             for lits, leaf in lv:
                 if is_identity(leaf, d):
                     nsing += 1
@@ -184,8 +184,17 @@ def main(rep, ws, tier):
                     continue
                 if leaf.op != 'tuple':
                     bad = 'unexpected leaf %s' % T.show(leaf, 2); break
+                def guard_of_leaf():
+                    nonlocal badg
+                    divided, missing = guard_check(leaf, lits, d, lt)
+                    big = any(c.op == 'fcmp' and c.attr == 'ole' and c.args[0].op == 'const' and T.const_value(c.args[0]) == 1 and v is True for c, v in lits)
+                    if not big and missing and badg is None:
+                        badg = 'slot(s) %s are divided by the determinant on the |det| < 1 path without the overflow guard of the same slot' % ['[%d][%d]' % (k // d, k % d) for k in missing]
+                    key = tuple(sorted(k for k, v in enumerate(leaf.args) if (v.args[0] if v.op == 'fneg' else v).op == 'fdiv'))
+                    div_sets.setdefault(tuple(c for c, v in lits if c.op == 'fcmp' and c.attr == 'oeq'), {}).setdefault(big, set()).add(key)
                 if leaf.id in generic_ok:
                     ninv += 1
+                    if m['fn'] == 'inverse' and leaf.id in det_leaves: guard_of_leaf()      # the same value on another path of this function: its guard is a property of the path
                     continue
                 try:
                     e, nc = check_leaf(leaf, lits, d, t, max_conds=12)
@@ -198,12 +207,8 @@ def main(rep, ws, tier):
                     bad = e + ' on the path ' + ', '.join('%s=%s' % (T.show(c, 2)[:50], v) for c, v in lits[:8]); break
                 ninv += 1
                 if m['fn'] == 'inverse':
-                    divided, missing = guard_check(leaf, lits, d, lt)
-                    big = any(c.op == 'fcmp' and c.attr == 'ole' and c.args[0].op == 'const' and T.const_value(c.args[0]) == 1 and v is True for c, v in lits)
-                    if not big and missing and badg is None:
-                        badg = 'slot(s) %s are divided by the determinant on the |det| < 1 path without the overflow guard of the same slot' % ['[%d][%d]' % (k // d, k % d) for k in missing]
-                    key = tuple(sorted(k for k, v in enumerate(leaf.args) if (v.args[0] if v.op == 'fneg' else v).op == 'fdiv'))
-                    div_sets.setdefault(tuple(c for c, v in lits if c.op == 'fcmp' and c.attr == 'oeq'), {}).setdefault(big, set()).add(key)
+                    det_leaves.add(leaf.id)
+                    guard_of_leaf()
             if bad:
                 rep.ob(oid, 'R06.adj', VIOLATED, bad, where)
             elif und and ninv == 0:
